@@ -6,6 +6,7 @@ import (
 	"go/token"
 	"go/types"
 	"sort"
+	"strings"
 
 	"golang.org/x/tools/go/ssa"
 )
@@ -218,5 +219,79 @@ func allCriteriaRule(r *Report, p *Prog, rule string) {
 		r.bad(rule, key, p.pos(bad), "the outcome of a criterion is stored in the result variable instead of leaving with `return false`, and a later criterion sets the variable to true when it is met: a profile whose first criterion fails and whose second is met is activated, although all criteria have to hold")
 	} else {
 		r.ok(rule, key, p.pos(f.Pos()), fmt.Sprintf("%d assignments to the result variable; no computed outcome is followed by a constant true", len(asgs)))
+	}
+}
+
+// importKeyRule (C15.g IMPORT-KEY-VERSION): dependency-management imports are
+// projects (BOMs), and a project is identified by group, artifact AND version:
+// root may import outer:1, which imports bom:1, and then bom:2 itself. The loop
+// of ProcessDependencies that works through the imports keeps a visited set so
+// that no BOM is read twice; if that set is keyed without the version, bom:2 is
+// taken for bom:1 and what only it manages is lost. The key type of the set
+// consulted in the import loop has a Version component.
+func importKeyRule(r *Report, p *Prog, rule string) {
+	f := p.lookupFn("(*maven.Project).ProcessDependencies")
+	key := "(*maven.Project).ProcessDependencies: the visited set of imports is keyed with the version"
+	if f == nil {
+		r.bad(rule, key, "", "ProcessDependencies not found: anchor lost")
+		return
+	}
+	hasVersion := func(t types.Type) bool {
+		st, ok := t.Underlying().(*types.Struct)
+		if !ok {
+			return false
+		}
+		for i := 0; i < st.NumFields(); i++ {
+			if st.Field(i).Name() == "Version" {
+				return true
+			}
+		}
+		return false
+	}
+	loops := naturalLoops(f)
+	n := 0
+	var bad token.Pos
+	var badKey string
+	for _, b := range f.Blocks {
+		if innermostLoop(loops, b) == nil {
+			continue
+		}
+		ifi, ok := b.Instrs[len(b.Instrs)-1].(*ssa.If)
+		if !ok {
+			continue
+		}
+		lk, ok := ifi.Cond.(*ssa.Lookup)
+		if !ok {
+			if ex, ok2 := ifi.Cond.(*ssa.Extract); ok2 {
+				lk, ok = ex.Tuple.(*ssa.Lookup)
+			}
+		}
+		if !ok || lk == nil {
+			continue
+		}
+		mt, ok := lk.X.Type().Underlying().(*types.Map)
+		if !ok {
+			continue
+		}
+		if bt, ok := mt.Elem().Underlying().(*types.Basic); !ok || bt.Kind() != types.Bool {
+			continue
+		}
+		// only sets whose key is (or embeds) a dependency key: the visited set of imports
+		if !strings.Contains(mt.Key().String(), "DependencyKey") && !hasVersion(mt.Key()) {
+			continue
+		}
+		n++
+		if !hasVersion(mt.Key()) {
+			bad = lk.Pos()
+			badKey = mt.Key().String()
+		}
+	}
+	switch {
+	case n == 0:
+		r.bad(rule, key, p.pos(f.Pos()), "no visited-set test found in a loop of ProcessDependencies: anchor lost")
+	case bad.IsValid():
+		r.bad(rule, key, p.pos(bad), "the set of imports already read is keyed by "+badKey+", which has no version: a BOM imported at one version (perhaps through another BOM) hides the import of the same BOM at another version, and the dependencies only that one manages end up without a version")
+	default:
+		r.ok(rule, key, p.pos(f.Pos()), "the key of the visited set has a Version component")
 	}
 }
